@@ -79,7 +79,8 @@ Lawful(n, snake, trim, res) == LET l == Laws(n, snake, trim, res) IN
   l.identifier /\ l.not_keyword /\ l.not_reserved /\ l.idempotent /\ l.keeps_alnum
 
 \* ---- a state machine over names and pairs (so that TLC enumerates, counts and reports) ---------------------------
-CONSTANTS Deviations       \* {"silent_merge"} as built: two names of one scope that map to one Python name are merged
+CONSTANTS Deviations,      \* {"silent_merge"} as built: two names of one scope that map to one Python name are merged
+          PlantNames       \* the names a second name of the scope is drawn from (a subset of Names keeps the pair space finite)
 VARIABLES name, other, flags, out, outOther, fate
 vars == <<name, other, flags, out, outOther, fate>>
 FlagSets == [snake : BOOLEAN, trim : BOOLEAN, res : BOOLEAN]
@@ -93,7 +94,7 @@ Plant(o) ==
   /\ other' = o /\ outOther' = Process(o, flags.snake, flags.trim, flags.res)
   /\ fate' = IF outOther' # out THEN "distinct" ELSE IF "silent_merge" \in Deviations THEN "merged" ELSE "refused"
   /\ UNCHANGED <<name, flags, out>>
-Next == Map \/ \E o \in Names : Plant(o)
+Next == Map \/ \E o \in PlantNames : Plant(o)
 Spec == Init /\ [][Next]_vars
 \* known deviations of the as-built mapping (open findings):
 \*  digit_first : leading underscores in front of a digit are dropped (by snake-casing or by trimming): "_1" -> "1"
